@@ -205,7 +205,7 @@ where
 {
     let mut remaining = ctx.share(total_cases);
     let mut attempt = 0u64;
-    while remaining > 0 && attempt < 8 {
+    while remaining > 0 && attempt < 40 {
         let cfg = Config {
             cases: remaining,
             rng_seed: RngSeed::Fixed(ctx.lane_seed(name) ^ attempt.wrapping_mul(0x5851f42d4c957f2d)),
@@ -290,6 +290,30 @@ where
                 }
             }
         }
+    }
+}
+
+/// Run `check`; a violation only counts if it shows again in each of `reruns`
+/// fresh re-executions of the same case (openat2 -- the oracle and one of the
+/// back-ends -- fails spuriously with EAGAIN/ELOOP while other processes mount
+/// or rename).
+pub fn stable<C>(check: &CheckFn<C>, case: &C, stats: &mut Stats, reruns: usize) -> Result<(), Fail> {
+    match check(case, stats) {
+        Err(Fail::Violation(v)) => {
+            for _ in 0..reruns {
+                let mut scratch = Stats::default();
+                match check(case, &mut scratch) {
+                    Ok(()) => {
+                        stats.count("violations_not_reproduced_on_immediate_rerun", 1);
+                        return Ok(());
+                    }
+                    Err(Fail::Harness(m)) => return Err(Fail::Harness(m)),
+                    Err(Fail::Violation(_)) => {}
+                }
+            }
+            Err(Fail::Violation(v))
+        }
+        other => other,
     }
 }
 
@@ -470,6 +494,7 @@ pub fn check_main(prop: &Prop, tier: Tier, seed: u64) -> i32 {
         println!("VIOLATION property={} replay={}", prop.id, path);
         println!("  signature: {}", v.signature);
         for l in v.message.lines().take(40) {
+            let l: String = if l.chars().count() > 700 { l.chars().take(700).collect::<String>() + " …" } else { l.to_string() };
             println!("  {}", l);
         }
     }
@@ -552,6 +577,7 @@ pub fn replay_main(prop: &Prop, file: &Path) -> i32 {
             println!("VIOLATION property={} replay={}", prop.id, file.display());
             println!("  signature: {}", viol.signature);
             for l in viol.message.lines().take(60) {
+                let l: String = if l.chars().count() > 700 { l.chars().take(700).collect::<String>() + " …" } else { l.to_string() };
                 println!("  {}", l);
             }
             1
